@@ -411,8 +411,8 @@ func main() {
 	}
 	probeKinds()
 	crossCheck(structs)
-	for _, s := range []string{"module", "submodule", "revision"} {
-		kw(s) // spellings the hand-written code of modules.go / yang.go compares with
+	for _, s := range []string{"module", "submodule"} {
+		kw(s) // spellings the hand-written code of Modules.add compares Kind() with
 	}
 
 	typeIdx := map[reflect.Type]int{}
